@@ -19,6 +19,7 @@ import (
 	"net/http/httptest"
 	"strings"
 	"sync"
+	"sync/atomic"
 	"testing"
 	"time"
 
@@ -454,6 +455,34 @@ func (k *c08Signer) GetPrivateKey() (*ecdsa.PrivateKey, error) { return k.key, n
 func (k *c08Signer) ZeroPrivateKey(key *ecdsa.PrivateKey)      {}
 func (k *c08Signer) String() string                            { return "c08" }
 
+// one HTTP server for the whole run; requests go to the node of the history under way
+var (
+	c08Server     *httptest.Server
+	c08ServerOnce sync.Once
+	c08Current    atomic.Pointer[c08Node]
+)
+
+// c08Poll lets the monitor make one poll (BlockNumber, NonceAt for that block, store) and returns once it
+// has completed; it reports whether the node actually answered a confirmed-nonce query. A poll whose
+// transport failed half way is repeated by the caller.
+func c08Poll(node *c08Node, client *EvmClient, slow int) bool {
+	node.mu.Lock()
+	node.block++
+	node.permit = true
+	reportsBefore := node.reports
+	node.mu.Unlock()
+	// wake the monitor; the second hand-over is only taken once the first round has completed
+	if !c08Kick(client, slow) || !c08Kick(client, slow) {
+		node.mu.Lock()
+		node.problem("monitor did not take the wake-up")
+		node.mu.Unlock()
+	}
+	node.mu.Lock()
+	defer node.mu.Unlock()
+	node.permit = false
+	return node.reports > reportsBefore
+}
+
 // ---- running one history -------------------------------------------------------------------
 
 func c08Kick(c *EvmClient, slow int) bool {
@@ -474,11 +503,14 @@ func c08Run(t *testing.T, in c08In, slow int) ([]c08ObsOp, []string) {
 	ks := &c08Signer{key: key, node: node}
 	logger := slog.New(slog.NewTextHandler(io.Discard, nil))
 	owner := ks.GetAddress()
-	var srv *httptest.Server
 	var rpcClient *rpc.Client
 	if node.wire {
-		srv = httptest.NewServer(node)
-		defer srv.Close()
+		c08Current.Store(node)
+		c08ServerOnce.Do(func() {
+			c08Server = httptest.NewServer(http.HandlerFunc(func(w http.ResponseWriter, r *http.Request) {
+				c08Current.Load().ServeHTTP(w, r)
+			}))
+		})
 	}
 	newClient := func() *EvmClient {
 		var backend EVM = node
@@ -486,7 +518,7 @@ func c08Run(t *testing.T, in c08In, slow int) ([]c08ObsOp, []string) {
 			if rpcClient != nil {
 				rpcClient.Close()
 			}
-			rc, err := rpc.DialContext(context.Background(), srv.URL)
+			rc, err := rpc.DialContext(context.Background(), c08Server.URL)
 			if err != nil {
 				t.Fatalf("c08: dial: %v", err)
 			}
@@ -612,24 +644,15 @@ func c08Run(t *testing.T, in c08In, slow int) ([]c08ObsOp, []string) {
 				}
 			}
 			node.conf = v
-			node.block++
-			node.permit = true
-			reportsBefore := node.reports
 			node.mu.Unlock()
-			// wake the monitor; the second hand-over is only taken once the first round
-			// (BlockNumber, NonceAt, store) has completed
-			if !c08Kick(client, slow) || !c08Kick(client, slow) {
-				node.problem("monitor did not take the wake-up")
+			reported := false
+			for try := 0; try < 5 && !reported; try++ {
+				reported = c08Poll(node, client, slow)
 			}
-			node.mu.Lock()
-			if node.permit {
-				node.problem("monitor did not poll")
-				node.permit = false
-			}
-			if node.reports == reportsBefore {
+			if !reported {
 				node.problem("monitor did not ask for the confirmed nonce")
+				continue
 			}
-			node.mu.Unlock()
 			obs = append(obs, c08ObsOp{K: "conf", Conf: v})
 		case "drain":
 			// everything the node took is mined; blocks advance until the monitor has delivered every
@@ -641,23 +664,9 @@ func c08Run(t *testing.T, in c08In, slow int) ([]c08ObsOp, []string) {
 			node.mu.Unlock()
 			empty := false
 			for round := 0; round < 40 && !empty; round++ {
-				node.mu.Lock()
-				node.block++
-				node.permit = true
-				reportsBefore := node.reports
-				node.mu.Unlock()
-				if !c08Kick(client, slow) || !c08Kick(client, slow) {
-					node.problem("monitor did not take the wake-up")
+				if !c08Poll(node, client, slow) {
+					continue // transport hiccup: nothing was reported, poll again
 				}
-				node.mu.Lock()
-				if node.permit {
-					node.problem("monitor did not poll")
-					node.permit = false
-				}
-				if node.reports == reportsBefore {
-					node.problem("monitor did not ask for the confirmed nonce")
-				}
-				node.mu.Unlock()
 				obs = append(obs, c08ObsOp{K: "conf", Conf: v})
 				deadline := time.Now().Add(time.Duration(250*slow) * time.Millisecond)
 				for {
@@ -1102,6 +1111,11 @@ func c08Exhaustive(n int, emit func(c08In)) {
 func TestVerifC08(t *testing.T) {
 	e := vfOpen(t, 100)
 	defer e.Close()
+	defer func() {
+		if c08Server != nil {
+			c08Server.Close()
+		}
+	}()
 	run := func(class string, in c08In) {
 		obs, problems := c08Run(t, in, e.Slow)
 		if len(problems) > 0 {
